@@ -221,6 +221,8 @@ CLI_RUNS = [
     (['--reconfigure', 'canonical', '--rearrange', 'canonical', '--make-variables', 'v{i}'], CORPUS['deep'] + '\n' + CORPUS['aligned']),
     (['--amr', '--canonicalize-roles', '--indent', 'no'], CORPUS['overinv']),
     (['--triples'], CORPUS['strings']),
+    (['--amr', '--rearrange', 'inverted-last,alphanumeric'], '(a / x :ARG1-of (b / y) :domain (c / z) :ARG0 (d / w) :mod-of (e / v))'),
+    (['--amr', '--rearrange', 'alphanumeric,inverted-last', '--reconfigure', 'canonical'], '(a / x :ARG1-of (b / y) :domain (c / z) :ARG0 (d / w) :mod-of (e / v))'),
 ]
 
 
